@@ -28,29 +28,29 @@ Proof. vm_compute. reflexivity. Qed.
 Definition p_inv := PAnd (PNot (PCmp ["a"; "b"] CEq (KNum 8))) (PCmp ["d"] CEq (KNum 8)).
 Example inverted_merge_refuted :
   exists q, compile legacy p_inv = Ok q /\ wf_fit f0 = true /\ sem q f0 = true /\ eval p_inv f0 = false.
-Proof. eexists. vm_compute. repeat split. Qed.
+Proof. eexists. split; [vm_compute; reflexivity|]. vm_compute. repeat split. Qed.
 Example inverted_merge_guard : safe legacy p_inv = false /\ safe_with current false true true true p_inv = true.
 Proof. vm_compute. split; reflexivity. Qed.
 Example inverted_merge_repaired :
   exists q, compile current p_inv = Ok q /\ sem q f0 = false /\ sem q f1 = false.
-Proof. eexists. vm_compute. repeat split. Qed.
+Proof. eexists. split; [vm_compute; reflexivity|]. vm_compute. repeat split. Qed.
 
 (* (a == A) | (a == 1.0): merged Or inner-joins `value` and loses the type branch *)
 Definition p_join := POr (PCmp ["a"] CEq (KType A)) (PCmp ["a"] CEq (KNum 8)).
 Example or_join_refuted :
   exists q, compile current p_join = Ok q /\ wf_fit f0 = true /\ sem q f0 = false /\ eval p_join f0 = true.
-Proof. eexists. vm_compute. repeat split. Qed.
+Proof. eexists. split; [vm_compute; reflexivity|]. vm_compute. repeat split. Qed.
 (* (a == 1.0) | (a.b == 2.0): same defect with a deeper path *)
 Definition p_join2 := POr (PCmp ["a"] CEq (KNum 8)) (PCmp ["a"; "b"] CEq (KNum 16)).
 Example or_join2_refuted :
   exists q, compile current p_join2 = Ok q /\ sem q f1 = false /\ eval p_join2 f1 = true.
-Proof. eexists. vm_compute. repeat split. Qed.
+Proof. eexists. split; [vm_compute; reflexivity|]. vm_compute. repeat split. Qed.
 
 (* ~(info["k"] == "v") *)
 Definition p_ninfo := PNot (PInfo "k" "v").
 Example not_info_refuted :
   exists q, compile current p_ninfo = Ok q /\ wf_fit f2 = true /\ sem q f2 = false /\ eval p_ninfo f2 = true.
-Proof. eexists. vm_compute. repeat split. Qed.
+Proof. eexists. split; [vm_compute; reflexivity|]. vm_compute. repeat split. Qed.
 
 (* ~(unique_tag == "t") on a fit whose unique_tag is NULL: not (NULL = 't') is NULL *)
 Definition f_null := mkFit "fn" (OInst "c10_classes.Root" [("a", OVal 8)]) [("name", Some "fn"); ("unique_tag", None)]
@@ -58,7 +58,7 @@ Definition f_null := mkFit "fn" (OInst "c10_classes.Root" [("a", OVal 8)]) [("na
 Definition p_nattr := PNot (PAttr (AEqS "unique_tag" (Some "t"))).
 Example not_attr_null_refuted :
   exists q, compile current p_nattr = Ok q /\ wf_fit f_null = true /\ sem q f_null = false /\ eval p_nattr f_null = true.
-Proof. eexists. vm_compute. repeat split. Qed.
+Proof. eexists. split; [vm_compute; reflexivity|]. vm_compute. repeat split. Qed.
 Example not_attr_guards :
   safe current p_nattr = false /\ safe_with current true true true false p_nattr = true /\
   attrs_defined f_null = false /\ forallb attrs_defined db5 = true.
@@ -105,7 +105,7 @@ Proof. vm_compute. split; reflexivity. Qed.
 Example p_ok_selects :
   exists q, compile current p_ok = Ok q /\ map fid (select q db5) = ["f0"; "f2"; "f3"] /\
             map fid (filter (eval p_ok) db5) = ["f0"; "f2"; "f3"].
-Proof. eexists. vm_compute. repeat split. Qed.
+Proof. eexists. split; [vm_compute; reflexivity|]. vm_compute. repeat split. Qed.
 (* the compiled form really is merged: one NamedQuery per name *)
 Example p_merge_shape :
   compile current (PAnd (PCmp ["a"; "b"] CEq (KNum 8)) (PCmp ["a"; "c"] CEq (KNum 16))) =
@@ -137,7 +137,8 @@ Qed.
 Lemma exact_refuted :
   exists p q f, compile current p = Ok q /\ wf_pred p = true /\ wf_fit f = true /\ sem q f <> eval p f.
 Proof.
-  exists p_join. eexists. exists f0. vm_compute. repeat split; discriminate.
+  destruct or_join_refuted as [q [Hq [W [Hs He]]]].
+  exists p_join, q, f0. repeat split; auto. rewrite Hs, He. discriminate.
 Qed.
 Lemma total_refuted :
   (exists p, wf_pred p = true /\ compile current p = Err ETypeError) /\
@@ -178,11 +179,12 @@ Proof. vm_compute. repeat split. eexists. split; reflexivity. Qed.
 (* search.name.contains("F0") / contains("_0") select the fit named "f0" *)
 Definition p_like1 := PAttr (AContains "name" "F0").
 Definition p_like2 := PAttr (AContains "name" "_0").
-Example like_refuted :
-  (exists q, compile current p_like1 = Ok q /\ sem q f0 = true /\ eval p_like1 f0 = false) /\
-  (exists q, compile current p_like2 = Ok q /\ sem q f0 = true /\ eval p_like2 f0 = false) /\
-  acond_plain f0 (AContains "name" "F0") = false /\ acond_plain f0 (AContains "name" "f") = true.
-Proof. vm_compute. repeat split; eexists; repeat split. Qed.
+Example like_refuted1 : exists q, compile current p_like1 = Ok q /\ sem q f0 = true /\ eval p_like1 f0 = false.
+Proof. eexists. split; [vm_compute; reflexivity|]. vm_compute. repeat split. Qed.
+Example like_refuted2 : exists q, compile current p_like2 = Ok q /\ sem q f0 = true /\ eval p_like2 f0 = false.
+Proof. eexists. split; [vm_compute; reflexivity|]. vm_compute. repeat split. Qed.
+Example like_plain_guard : acond_plain f0 (AContains "name" "F0") = false /\ acond_plain f0 (AContains "name" "f") = true.
+Proof. vm_compute. split; reflexivity. Qed.
 
 (* a slice is forgotten by a later order_by / query; the step of a slice is ignored *)
 Definition ops_lost := [OOrder OIdKey false; OSlice (Some 1%Z) (Some 3%Z) None; OOrder (ONumKey "max_log_likelihood") true].
@@ -224,19 +226,24 @@ Qed.
 
 (* ---------- the four proposed repairs: the former refutations become exact in `next` ---------- *)
 Definition p_and3 := PAnd (PCmp ["d"] CEq (KNum 8)) (PCmp ["d"] CEq (KStr "x")).
-Example next_repairs :
-  (exists q, compile next p_join = Ok q /\ sem q f0 = eval p_join f0 /\ sem q f2 = eval p_join f2) /\
-  (exists q, compile next p_join2 = Ok q /\ sem q f1 = eval p_join2 f1) /\
-  (exists q, compile next p_tab3 = Ok q /\ sem q f0 = true /\ sem q f1 = true /\ sem q f2 = false) /\
-  (exists q, compile next p_ninfo = Ok q /\ sem q f2 = true /\ sem q f0 = false /\ sem q f1 = true) /\
-  (exists q, compile next p_nattr = Ok q /\ sem q f_null = true) /\
-  (exists q, compile next p_notj = Ok q /\ sem q f0 = false /\ sem q f1 = true /\ sem q f2 = true) /\
-  compile next p_and3 = Err EAssertion.
-Proof. vm_compute. repeat split; eexists; repeat split. Qed.
+Example next_or_join : exists q, compile next p_join = Ok q /\ sem q f0 = true /\ eval p_join f0 = true /\ sem q f2 = true /\ eval p_join f2 = true.
+Proof. eexists. split; [vm_compute; reflexivity|]. vm_compute. repeat split. Qed.
+Example next_or_join2 : exists q, compile next p_join2 = Ok q /\ sem q f1 = true /\ eval p_join2 f1 = true.
+Proof. eexists. split; [vm_compute; reflexivity|]. vm_compute. repeat split. Qed.
+Example next_three_tables_or : exists q, compile next p_tab3 = Ok q /\ sem q f0 = true /\ sem q f1 = true /\ sem q f2 = false.
+Proof. eexists. split; [vm_compute; reflexivity|]. vm_compute. repeat split. Qed.
+Example next_not_info : exists q, compile next p_ninfo = Ok q /\ sem q f2 = true /\ sem q f0 = false /\ sem q f1 = true.
+Proof. eexists. split; [vm_compute; reflexivity|]. vm_compute. repeat split. Qed.
+Example next_not_attr_null : exists q, compile next p_nattr = Ok q /\ sem q f_null = true /\ eval p_nattr f_null = true.
+Proof. eexists. split; [vm_compute; reflexivity|]. vm_compute. repeat split. Qed.
+Example next_not_junction : exists q, compile next p_notj = Ok q /\ sem q f0 = false /\ sem q f1 = true /\ sem q f2 = true.
+Proof. eexists. split; [vm_compute; reflexivity|]. vm_compute. repeat split. Qed.
+Example next_three_tables_and : compile next p_and3 = Err EAssertion.
+Proof. vm_compute. reflexivity. Qed.
 Example next_guard_holds :
   safe_with next false false true false p_join = true /\ safe_with next false false true false p_join2 = true /\
   safe_with next false false true false p_tab3 = true /\ safe_with next false false true false p_ninfo = true /\
   safe_with next false false true false p_nattr = true /\ safe_with next false false true false p_notj = true /\
   safe_with next false false true false (PNot (PAnd p_join (POr p_ninfo (PNot p_notj)))) = true /\
   guard_next (PNot (PAnd p_join (POr p_ninfo p_nattr))) db5.
-Proof. unfold guard_next. vm_compute. repeat split. Qed.
+Proof. unfold guard_next. repeat split; vm_compute; reflexivity. Qed.
